@@ -8,6 +8,14 @@ fn main() {
         eprintln!("usage: vcheck <ID> <quick|thorough> [--replay file]");
         std::process::exit(2);
     }
+    if args[1] == "c20-case" {
+        vh::c20::child(&serde_json::from_str(&args[2]).expect("case json"));
+        return;
+    }
+    if args[1] == "eval-once" {
+        vh::e5::eval_once(args[2].parse().expect("port"), &args[3]);
+        return;
+    }
     let id = args[1].clone();
     let tier = match std::env::var("VERIF_TIER").ok().as_deref().or(Some(args[2].as_str())) {
         Some("thorough") => Tier::Thorough,
